@@ -125,6 +125,16 @@ where
         *codeword = (GF(*codeword) - *err).into();
     }
 
+    // 5. The result must be a codeword, otherwise there were too many errors.
+    let corrected = data
+        .iter()
+        .copied()
+        .step_by(stride)
+        .chain(error.iter().copied().step_by(stride));
+    if super::primitive_element_evaluation(corrected, &mut syndromes) {
+        return Err(ErrorDecodingError::Malfunction);
+    }
+
     Ok(())
 }
 
